@@ -17,7 +17,17 @@ static void rx_hex(const unsigned char *b, size_t n) {
 }
 int __real_regexec(const regex_t *preg, const char *s, size_t nmatch, regmatch_t pm[], int eflags);
 int __real_regcomp(regex_t *preg, const char *pattern, int cflags);
+void __real_regfree(regex_t *preg);
+/* the patterns that are currently compiled: regexec/regfree on anything else is undefined behaviour */
+static const regex_t *rx_live[64]; static int rx_nlive = 0; static int rx_ub = 0;
+static int rx_is_live(const regex_t *p) { for(int i = 0; i < rx_nlive; i++) if(rx_live[i] == p) return 1; return 0; }
+void __wrap_regfree(regex_t *preg) {
+    if(!rx_is_live(preg)) { rx_ub++; return; }
+    for(int i = 0; i < rx_nlive; i++) if(rx_live[i] == preg) { rx_live[i] = rx_live[--rx_nlive]; break; }
+    __real_regfree(preg);
+}
 int __wrap_regexec(const regex_t *preg, const char *s, size_t nmatch, regmatch_t pm[], int eflags) {
+    if(!rx_is_live(preg)) { rx_ub++; if(rx_on) rx_app(" rx=U", 5); return 1; }
     int r = __real_regexec(preg, s, nmatch, pm, eflags);
     if(rx_on && rx_dl) {
         char which = preg == rx_dl->hdr_regex ? 'h' : preg == rx_dl->dl_regex ? 'p' : preg == rx_dl->end_regex ? 'e' : 'u';
@@ -32,16 +42,19 @@ int __wrap_regexec(const regex_t *preg, const char *s, size_t nmatch, regmatch_t
 }
 int __wrap_regcomp(regex_t *preg, const char *pattern, int cflags) {
     int r = __real_regcomp(preg, pattern, cflags);
+    if(r == 0 && rx_nlive < 64 && !rx_is_live(preg)) rx_live[rx_nlive++] = preg;
     if(rx_on) { char t[32]; rx_app(" rc=", 4); rx_hex((const unsigned char *)pattern, strlen(pattern)); snprintf(t, sizeof t, ":%d", r == 0 ? 0 : 1); rx_app(t, strlen(t)); }
     return r;
 }
 
-/* DLFEED <tgtfile> <flags|-> <max_ranges> <header lines: hex,hex,...|-> <bodyfile> <cuts: n1,n2,...|-|bN> <stop|cont>
+/* DLFEED <tgtfile> <flags|-> <max_ranges> <header lines: hex,hex,...|-> <bodyfile> <cuts: n1,n2,...|-|bN> <stop|cont|clear> <expectation>
  * open the target (read/write, lead + header parsed), mark its chunks (1/0/x per chunk; '-' = zck_find_valid_chunks then
  * zck_reset_failed_chunks), request the missing ranges (at most max_ranges), feed each header line to zck_header_cb and the
  * body, cut into fragments, to zck_write_chunk_cb (each fragment in its own exact-size heap block).  stop = stop at the
- * first callback that does not accept its data (what a transport does), cont = keep feeding.
- *  -> OK range=<str> req=<chunk numbers> hdr=<rets> body=<rets> flags=<..> err=<n> dl=<dl_chunk_data>:<write_in_chunk>:<tgt_check>
+ * first callback that does not accept its data (what a transport does), cont = keep feeding, clear = keep feeding and call
+ * zck_clear_error after every refusal (what an application that retries does).  The expectation (wf | bad:<k> | any) is for
+ * the judge only.
+ *  -> OK flags0=<..> range=<str> req=<chunk numbers> hdr=<rets> body=<rets> flags=<..> err=<n> dl=<dl_chunk_data>:<write_in_chunk>:<tgt_check>
  *        mp=<state>:<length>:<buffer_len> file=<bytes> rx=.. rc=..          (the file itself is left on disk for the judge) */
 static void op_dlfeed(FILE *out, const char *id, char **a, int n) {
     int fd = open(a[0], O_RDWR);
@@ -53,12 +66,13 @@ static void op_dlfeed(FILE *out, const char *id, char **a, int n) {
     zckRange *range = zck_get_missing_range(zck, atoi(a[2]));
     if(!dl || !range || !zck_dl_set_range(dl, range)) { fprintf(out, "%s ERR range\n", id); return; }
     char *rs = zck_get_range_char(zck, range);
-    fprintf(out, "%s OK range=%s req=", id, rs && *rs ? rs : "-");
+    fprintf(out, "%s OK flags0=", id); put_flags(out, zck);
+    fprintf(out, " range=%s req=", rs && *rs ? rs : "-");
     int first = 1;
     for(zckChunk *c = range->index.first; c; c = c->next) { fprintf(out, "%s%zu", first ? "" : ",", (size_t)c->src->number); first = 0; }
     if(first) fputc('-', out);
     rx_on = 1; rx_dl = dl;
-    int stop = strcmp(a[6], "stop") == 0, failed = 0;
+    int stop = strcmp(a[6], "stop") == 0, clear = strcmp(a[6], "clear") == 0, failed = 0;
     fprintf(out, " hdr=");
     if(strcmp(a[3], "-") == 0) fputc('-', out);
     else {
@@ -83,7 +97,7 @@ static void op_dlfeed(FILE *out, const char *id, char **a, int n) {
         unsigned char *blk = malloc(len ? len : 1); memcpy(blk, body + pos, len);
         size_t r = zck_write_chunk_cb(blk, 1, len, dl);
         fprintf(out, "%s%zu", first ? "" : ",", r); first = 0;
-        if(r != len) failed = 1;
+        if(r != len) { failed = 1; if(clear) zck_clear_error(zck); }
         free(blk);
         pos += len;
         if(len == 0 && pos >= bl) break;
@@ -95,7 +109,8 @@ static void op_dlfeed(FILE *out, const char *id, char **a, int n) {
     if(dl->tgt_check) fprintf(out, "%zu", (size_t)dl->tgt_check->number); else fputc('-', out);
     fprintf(out, " mp=%d:%zu:%zu", dl->mp ? dl->mp->state : -1, dl->mp ? dl->mp->length : 0, dl->mp ? dl->mp->buffer_len : 0);
     free(rs);
-    zck_dl_free(&dl); zck_range_free(&range); zck_free(&zck); close(fd);
+    zck_dl_free(&dl);
+    fprintf(out, " ub=%d", rx_ub); zck_range_free(&range); zck_free(&zck); close(fd);
     size_t tl; unsigned char *tb = slurp(a[0], &tl);
     fprintf(out, " file="); put_bytes(out, tb, tl);
     if(rx_log) fputs(rx_log, out);
